@@ -180,8 +180,8 @@ class LinkSym:
         self.opq += 1
         return ('sym', '%s#%d' % (what, self.opq))
 
-    def run(self):
-        st = PathState()
+    def run(self, init_state=None):
+        st = init_state.clone() if init_state is not None else PathState()
         self._explore(self.start, st, {}, {})
         return self.paths
 
@@ -550,6 +550,7 @@ class LinkSym:
                 val[i] = ('fresh', 1000 + st.fresh)
             return
         if k == 'ReturnStmt':
+            st.ret = self._term(st, c[0], val) if c else None
             return 'exit'
         if k in ('CXXConstructExpr', 'CXXTemporaryObjectExpr'):
             val[i] = self.opaque('obj')
